@@ -137,6 +137,7 @@ func propC16(w *World, r *Report) {
 
 	RunClosureState(w, r, w.LibFuncs())
 	r.Floor("closurestate", 3)
+	RunEffectControls(r)
 	mutators := map[string]bool{"InstallCMap": true, "EnsureGlyphNames": true}
 	var entries []*ssa.Function
 
